@@ -80,6 +80,7 @@ type Sched struct {
 	mapDev  int
 	userObj map[string]*int
 	nGo     int
+	locals  map[interface{}]*[]interface{}
 }
 
 // S is the installed scheduler (nil = pass-through).
@@ -314,6 +315,24 @@ func Touch(obj string) {
 		return
 	}
 	s.park(&op{kind: opTouch, tag: obj})
+}
+
+// Local returns per-execution storage attached to key (nil in pass-through mode): state of
+// modelled library objects (sync.Pool) must not survive from one execution into the next.
+func Local(key interface{}) *[]interface{} {
+	s := S
+	if s == nil {
+		return nil
+	}
+	if s.locals == nil {
+		s.locals = map[interface{}]*[]interface{}{}
+	}
+	l := s.locals[key]
+	if l == nil {
+		l = new([]interface{})
+		s.locals[key] = l
+	}
+	return l
 }
 
 // WaitIdle blocks until no other goroutine can make progress (harness actors use it to
